@@ -18,10 +18,17 @@
      never ends from 4095 bytes on (D2);
    * the specification is order independent.
   Witnesses (`decide`): D1, F02-2BR, F02-BIGSUFFIX end to end through `cliFinal`.
-  NOT proved: `hostlist_filter_regex` = filter (iterator + remove; tied to the specification by the
-  correspondence runs only), and the composition `cliFinal = spec` for one-bracket small inputs.
+   * repaired D19: `hostlist_filter_regex` (iterate + `hostlist_remove`) leaves exactly the hosts
+     the filter keeps, and `wcoll_apply_regex` the hosts that pass every filter (order, multiplicity);
+   * COMPOSITION (`exclusion_correct`): with D1, D17, D19 repaired, for one-bracket target words and
+     small names, the words `wcoll_arg_process` sees lead to exactly
+     targets.filter (not excluded) |>.filter (passes every regex) — assembling, exclusion stack,
+     filter stack and `wcoll_expand` chained, record identities / iterators / bounds tracked through.
+  NOT proved: the same for the UNCHANGED `hostlist_remove` (D19: the iterator revisits hosts; the
+  test is idempotent, covered by the correspondence runs); `^file` words and `-x`/`-w` option
+  splitting are outside the composition theorem (files: C10; splitting: `evWords` is executable).
 -/
-import PdshVerif.Opt.ExcludeLemmas
+import PdshVerif.Opt.ExcludeCompose
 
 namespace PdshVerif.C02
 open PdshVerif.Hostlist PdshVerif.Opt PdshVerif.Opt.Exclude
@@ -62,6 +69,50 @@ theorem exclusion_repaired (cfg : Cfg) (hfix : cfg.fixDeleteAll = true) (es : Li
     ∃ e', applyExcluded cfg (es.map (·.1)) e = .ok e' ∧ e'.Good ∧
       e'.hosts = e.hosts.filter (fun h => !(es.flatMap (·.2)).contains h) :=
   applyExcluded_repaired cfg hfix es e hg hok
+
+/-! ### regex filters -/
+/-- FILTER (repaired D19): `hostlist_filter_regex(hl, re)` — a live iterator over the list, a
+    `hostlist_remove` for every host the filter rejects, through range splits, shrinking records and
+    records that go away — leaves exactly `hosts.filter keep`, in order and multiplicity.
+    (`IdsOk`: distinct record identities; `PrintsFull`: D17 repaired or narrow numbers; no other
+    live iterator; the oracle answers for every host of the list) -/
+theorem filterRegex_hosts (cfg : Cfg) (hfix : cfg.fixRemoveDepth = true) (m : Str → Option Bool) (exclude : Bool)
+    (pat : Str) (e : EL) (hid : e.IdsOk) (hg : e.Good) (hf : ∀ q ∈ e.ranges, q.PrintsFull cfg) (hits : e.its = [])
+    (hm : ∀ h ∈ e.hosts, (m h).isSome = true) :
+    ∃ e', filterRegex cfg m exclude pat e = .ok e' ∧ e'.hosts = e.hosts.filter (keepOf m exclude) ∧ e'.Good := by
+  obtain ⟨e', h1, h2, _, h4, _, _⟩ := filterRegex_spec cfg hfix (·.PrintsFull cfg)
+    (fun _ _ h hw hh hs => narrow_of_le h hw hh hs) (fun _ h => h) m exclude pat e hid hg hf hits hm
+  exact ⟨e', h1, h2, h4⟩
+
+/-- `wcoll_apply_regex` (repaired D19): the hosts that pass EVERY filter of `regex_list` stay;
+    since `keepAll` is a conjunction the order of the filters does not matter -/
+theorem applyRegex_hosts (cfg : Cfg) (hfix : cfg.fixRemoveDepth = true) (env : Env) (rs : List (Bool × Str)) (e : EL)
+    (hid : e.IdsOk) (hg : e.Good) (hf : ∀ q ∈ e.ranges, q.PrintsFull cfg) (hits : e.its = [])
+    (hm : ∀ p ∈ rs, ∀ h ∈ e.hosts, (env.rematch p.2 h).isSome = true) :
+    ∃ e', applyRegex cfg env rs e = .ok e' ∧ e'.hosts = e.hosts.filter (keepAll env rs) ∧ e'.Good := by
+  obtain ⟨e', h1, h2, _, h4, _, _⟩ := applyRegex_spec cfg hfix (·.PrintsFull cfg)
+    (fun _ _ h hw hh hs => narrow_of_le h hw hh hs) (fun _ h => h) env rs e hid hg hf hits hm
+  exact ⟨e', h1, h2, h4⟩
+
+/-! ### composition -/
+/-- EXCLUSION CORRECT.  `ws`: the comma words of the command line by meaning — target words
+    (`pre[ranges]suffix` or plain names), exclusion words (`-` + such a word), filters (`/re/`, and the
+    same behind a `-`) in ANY order.  With D1, D17, D19 repaired and inside `Domain` (word shapes; one-bracket
+    targets; exclusion entries parse, their names are small; the regex oracle answers for every
+    target; numbers below 10^15) the hosts pdsh goes on with are
+        targets.filter (· ∉ excluded) |>.filter (passes every filter)
+    with the targets in command-line order, multiplicities kept (`specWords`; `expand₁ = expand₂`
+    for one-bracket words, `expand₂_oneBracket`).  `cliFinal` is `cliWords` on the split options. -/
+theorem exclusion_correct (cfg : Cfg) (hD1 : cfg.fixDeleteAll = true) (hD17 : cfg.fixIterSuffix = true)
+    (hD19 : cfg.fixRemoveDepth = true) (env : Env) (ws : List CW) (hd : Domain cfg env ws) :
+    cliWords cfg env (ws.map CW.text) = .ok (specWords env ws) :=
+  cliWords_correct cfg hD1 hD17 hD19 env ws hd
+
+/-- the domain is inhabited: targets foo[1-3] and bar, foo2 excluded, names matching `3` dropped —
+    pdsh goes on with foo1 and bar, BY the theorem (`demo_domain` proves every hypothesis) -/
+theorem exclusion_correct_instance :
+    cliWords Cfg.repaired demoEnv (demoWords.map CW.text) = .ok ["foo1".toList, "bar".toList] :=
+  demo_correct
 
 /-! ### the buffer loop of `list_push_hostlist` (D2) -/
 /-- TERMINATION (repaired D2): the loop stops within 12 doublings whatever the length of the
